@@ -86,11 +86,14 @@ class Source:
         for i, p in enumerate(parts):
             if i:
                 pat.append('::')
-            pat.append(p)
+            if p.startswith('operator') and len(p) > 8:
+                pat += ['operator', p[8:]]
+            else:
+                pat.append(p)
         depth = self.depth_map()
         cands = []
         for k, t in enumerate(toks):
-            if t.kind != 'id' or t.text != parts[0]:
+            if t.kind != 'id' or t.text != pat[0]:
                 continue
             last = seq_at(toks, k, pat)
             if last < 0:
@@ -369,14 +372,22 @@ def rewrite_range_for(ftoks, lo, specs, log, fn, unit_globals=None):
                     end = se
                 tag = sp.get('tag')
                 ct, it, ed = sp['container_type'], sp['iter_type'], sp['elem_decl']
-                if unit_globals is not None and tag:
+                if unit_globals is not None and tag and sp.get('global_iters'):
+                    rng, itv, endv = '__rng', f'__it_{tag}', f'__end_{tag}'
+                    unit_globals.append(f'extern "C" {{ {sp["global_iters"]} {itv}; {sp["global_iters"]} {endv}; }}')
+                    head = f'{{ {ct} *{rng} = &({expr}); {itv} = {rng}->begin(); {endv} = {rng}->end(); '
+                elif tag:
                     rng, itv, endv = f'__rng_{tag}', f'__it_{tag}', f'__end_{tag}'
-                    unit_globals.append(f'{ct} *{rng}; {it} {itv}; {it} {endv};')
-                    head = f'{{ {rng} = &({expr}); {itv} = {rng}->begin(); {endv} = {rng}->end(); '
+                    head = f'{{ {ct} *{rng} = &({expr}); {it} {itv} = {rng}->begin(); {it} {endv} = {rng}->end(); '
                 else:
                     rng, itv, endv = '__rng', '__it', '__end'
                     head = f'{{ {ct} *{rng} = &({expr}); {it} {itv} = {rng}->begin(); {it} {endv} = {rng}->end(); '
                 head += f'for (; {itv} != {endv}; ++{itv}) {{ {ed} = *{itv}; '
+                if sp.get('hook'):
+                    # N12: assume-at-use hook (ghost statement): instantiates a universal precondition over the
+                    # immutable tables at exactly the element read (DESIGN.md 3.3); defined in the contract unit
+                    head += f'{sp["hook"]}({sp.get("hook_arg", var)}); '
+                    log.fire('N12', fn)
                 new = _retok(head) + body + _retok(' } }')
                 out[k:end + 1] = new
                 log.fire('N1', fn)
